@@ -1,7 +1,7 @@
 #!/usr/bin/env python3
 """Confirm sub-agent mutations in their scratch worktree and store them as /verif/seeded/<id>/.
 usage: confirm_seeds.py C10 [C11 ...]"""
-import json, os, shutil, subprocess, sys
+import json, os, re, shutil, subprocess, sys
 PY = '/venv/bin/python'
 def sh(cmd, cwd, timeout=900):
     p = subprocess.run(cmd, cwd=cwd, shell=True, capture_output=True, text=True, timeout=timeout)
@@ -15,9 +15,9 @@ for pid in sys.argv[1:]:
         sh('git checkout -- . && git clean -fdq', wt)
         rc0, o0 = sh(f'{PY} {demo}', wt, 300)
         rca, oa = sh(f'git apply {patch}', wt)
-        rct, ot = sh(f'{PY} -m pytest asynq/tests -q -p no:cacheprovider --timeout=900 -q 2>&1 | tail -5', wt)
+        rct, ot = sh(f'{PY} -m pytest asynq/tests -q -p no:cacheprovider --timeout=900 2>&1 | tail -5', wt)
         failed = [l for l in ot.splitlines() if l.startswith('FAILED')]
-        tests_ok = all('test_pyright' in l for l in failed) and ('passed' in ot)
+        m = re.search(r'(\d+) passed', ot); tests_ok = all('test_pyright' in l for l in failed) and bool(m) and int(m.group(1)) >= 104
         rc1, o1 = sh(f'{PY} {demo}', wt, 300)
         sh('git checkout -- . && git clean -fdq', wt)
         ok = rc0 == 0 and rca == 0 and tests_ok and rc1 != 0
